@@ -21,6 +21,7 @@ import (
 
 func init() {
 	sim.RegisterKind("connid-duplicate", "C16", "C04")
+	sim.RegisterKind("connect-wrong-source", "C16", "C04")
 	sim.RegisterKind("connid-unbacked", "C16")
 	sim.RegisterKind("connect-unexpected", "C16", "C04")
 	sim.RegisterKind("connect-dup-code", "C16")
@@ -917,7 +918,7 @@ func init() {
 				return
 			}
 			if caseNo%6 == 5 {
-				runC16RealClient(t, rng, rec, tier, caseNo)
+				runC16RealClient(t, rng, rec, tier, caseNo/6)
 
 				return
 			}
@@ -972,6 +973,59 @@ func runC16RealClient(t *testing.T, rng *rand.Rand, rec *sim.Rec, tier string, c
 	defer cl.Close()
 	if err := cl.Listen(); err != nil {
 		t.Fatal(err)
+	}
+	// every other case another client of the same server has allocated and dialled out before:
+	// what the relay did for that one must not colour what it does for this one
+	if caseNo%2 == 0 {
+		ctrl0, err := w.Net.DialTCP(net.IPv4(10, 1, 1, 2).To4(), 0, w.ServerTCP[0].TCPAddr())
+		if err != nil {
+			t.Fatal(err)
+		}
+		cl0, err := turn.NewClient(&turn.ClientConfig{
+			STUNServerAddr: "10.0.0.1:3478", TURNServerAddr: "10.0.0.1:3478", Conn: turn.NewSTUNConn(ctrl0),
+			Username: "alice", Password: "pw-a", Realm: "verif.test",
+			Net: &simnet.VNet{N: w.Net, HostIP4: net.IPv4(10, 1, 1, 2).To4()}, LoggerFactory: logs,
+		})
+		if err != nil {
+			t.Fatal(err)
+		}
+		defer cl0.Close()
+		if err := cl0.Listen(); err != nil {
+			t.Fatal(err)
+		}
+		alloc0, err := cl0.AllocateTCP()
+		if err != nil {
+			rec.Violate("client-tcp", "allocate", "AllocateTCP of the first client failed: %v", err)
+
+			return
+		}
+		defer alloc0.Close() //nolint:errcheck
+		l0, _ := w.Net.ListenTCP(net.IPv4(10, 2, 0, 9).To4(), 8100)
+		acc0 := make(chan net.Conn, 1)
+		go func() {
+			if c, err := l0.Accept(); err == nil {
+				acc0 <- c
+			}
+		}()
+		dc0, err := alloc0.DialTCP("tcp", nil, l0.TCPAddr())
+		if err != nil {
+			rec.Violate("client-tcp", "dial", "DialTCP of the first client failed: %v", err)
+
+			return
+		}
+		defer dc0.Close() //nolint:errcheck
+		select {
+		case pe0 := <-acc0:
+			if pe0.RemoteAddr().String() != alloc0.Addr().String() {
+				rec.Violate("connect-wrong-source", "first-client", "the first client's peer sees its connection coming from %s, that client's relayed address is %s", pe0.RemoteAddr(), alloc0.Addr())
+			}
+			defer pe0.Close() //nolint:errcheck
+		case <-time.After(5 * time.Second):
+			rec.Violate("client-tcp", "dial-no-peer-conn", "DialTCP of the first client returned but the peer accepted nothing")
+
+			return
+		}
+		rec.FP("client-tcp/another-client-dialled-before/gen=%s", genKind)
 	}
 	alloc, err := cl.AllocateTCP()
 	if err != nil {
@@ -1056,6 +1110,9 @@ func runC16RealClient(t *testing.T, rng *rand.Rand, rec *sim.Rec, tier string, c
 
 				return
 			}
+			if pe.RemoteAddr().String() != relay {
+				rec.Violate("connect-wrong-source", "dial", "the peer sees the client's connection coming from %s, the client's relayed address is %s (generator %s)", pe.RemoteAddr(), relay, genKind)
+			}
 			if pe.RemoteAddr().String() != relay || dc.RemoteAddr().String() != l.TCPAddr().String() || dc.LocalAddr().String() != relay {
 				rec.Violate("client-tcp", "dial-addresses", "DialTCP: peer sees %s (relay %s); conn reports remote %s local %s", pe.RemoteAddr(), relay, dc.RemoteAddr(), dc.LocalAddr())
 			}
@@ -1115,8 +1172,12 @@ func runC16RealClient(t *testing.T, rng *rand.Rand, rec *sim.Rec, tier string, c
 	}
 	_ = alloc.Close()
 	time.Sleep(10 * time.Second)
-	if n := w.Srv.AllocationCount(); n != 0 {
-		rec.Violate("client-tcp", "close", "AllocationCount=%d after TCPAllocation.Close", n)
+	others := 0
+	if caseNo%2 == 0 {
+		others = 1 // (the first client's allocation is still there)
+	}
+	if n := w.Srv.AllocationCount(); n != others {
+		rec.Violate("client-tcp", "close", "AllocationCount=%d after TCPAllocation.Close, want %d", n, others)
 	}
 	rec.SetSample(map[string]any{"kind": "real-client-rfc6062", "rounds": rounds, "generator": genKind})
 }
